@@ -10,7 +10,7 @@ use crate::gosem::GoVerdict;
 use crate::oracle::*;
 use serde_json::{Value, json};
 
-pub const HOSTILE: [&str; 79] = [
+pub const HOSTILE: [&str; 81] = [
     // Go keywords that are not goml keywords
     "break", "case", "chan", "const", "continue", "default", "defer", "fallthrough", "func", "goto", "interface", "map", "range", "select", "switch", "var",
     // predeclared identifiers and package names the output relies on
@@ -21,17 +21,26 @@ pub const HOSTILE: [&str; 79] = [
     "x0", "t1", "t2", "mtmp0", "ret2", "ret5", "cond3", "env4", "wild6", "Tuple2_int32_int32", "Tuple2_int32_bool", "closure_env_main_0", "ref_int32_x", "dyn__Tr", "dyn__Tr_vtable",
     // spellings of the compiler's own type representation (it must not recognise them inside user names)
     "TParam", "XTParamY", "TVar0", "TApp",
+    // the entry point's names (only Main's `main` is the entry point)
+    "main", "init",
     "apply", "isE", "data", "vtable", "value", "reference", "arr", "index", "self", "a__0", "a__1", "x__0", "f__2", "S", "E",
 ];
 
-pub const ROLES: [&str; 14] =
-    ["fn", "param", "local", "patvar", "closure-param", "struct", "field", "enum", "variant", "trait", "method", "tparam", "fn-and-local", "fn-called-in-closure"];
+pub const ROLES: [&str; 17] =
+    ["lib-fn", "lib-struct", "lib-variant", "fn", "param", "local", "patvar", "closure-param", "struct", "field", "enum", "variant", "trait", "method", "tparam", "fn-and-local", "fn-called-in-closure"];
 
 const BENIGN: &str = "zzq";
 
 /// (source with {N}, expected stdout)
 fn template(role: &str) -> (&'static str, &'static str) {
     match role {
+        // the entity lives in an imported package (a second file: see run_text)
+        "lib-fn" => ("package Main\nimport Lib\n\nfn main() { string_println(int32_to_string(Lib::{N}(1) + Lib::helper())) }\n//// FILE Lib/lib.gom\npackage Lib\n\nfn helper() -> int32 { 10 }\nfn {N}(a: int32) -> int32 { a + helper() }\n", "21\n"),
+        "lib-struct" => ("package Main\nimport Lib\n\nfn main() { let s = Lib::mk(4); string_println(int32_to_string(s.a)) }\n//// FILE Lib/lib.gom\npackage Lib\n\nstruct {N} { a: int32 }\nfn mk(v: int32) -> {N} { {N} { a: v } }\n", "4\n"),
+        "lib-variant" => (
+            "package Main\nimport Lib\n\nfn main() { string_println(int32_to_string(Lib::g(Lib::Choice::{N}) + Lib::g(Lib::Choice::Other(2)))) }\n//// FILE Lib/lib.gom\npackage Lib\n\nenum Choice { {N}, Other(int32) }\nfn g(e: Choice) -> int32 { match e { Choice::{N} => 1, Choice::Other(v) => v } }\n",
+            "3\n",
+        ),
         "fn" => ("fn {N}(a: int32) -> int32 { a + 1 }\nfn main() { let r = {N}(1); string_println(int32_to_string(r)) }\n", "2\n"),
         "param" => ("fn f({N}: int32) -> int32 { {N} + 1 }\nfn main() { string_println(int32_to_string(f(1))) }\n", "2\n"),
         "local" => ("fn main() { let {N} = 5; let other = {N} + 1; string_println(int32_to_string(other + {N})) }\n", "11\n"),
@@ -121,7 +130,24 @@ fn duplicates() -> Vec<(&'static str, &'static str)> {
 pub struct NamesFamily;
 
 fn run_text(ctx: &mut Ctx, text: &str) -> Result<Obs, (String, String)> {
-    let path = ctx.scratch.single_path();
+    // `//// FILE <relative path>` starts another file of the project (the first part is main.gom)
+    let (path, main_text): (std::path::PathBuf, String) = if text.contains("//// FILE ") {
+        let root = ctx.scratch.fresh_dir("names");
+        let mut parts = text.split("//// FILE ");
+        let main_text = parts.next().unwrap_or("").to_string();
+        for part in parts {
+            let (rel, body) = part.split_once('\n').unwrap_or((part, ""));
+            let p = root.join(rel.trim());
+            std::fs::create_dir_all(p.parent().unwrap()).ok();
+            std::fs::write(&p, body).ok();
+        }
+        let mp = root.join("main.gom");
+        std::fs::write(&mp, &main_text).ok();
+        (mp, main_text)
+    } else {
+        (ctx.scratch.single_path(), text.to_string())
+    };
+    let text = main_text.as_str();
     match compile_at(&path, text) {
         CompileOutcome::Ok(c) => {
             let go = go_text(&c).map_err(|m| ("gopp.panic".to_string(), m))?;
@@ -149,7 +175,7 @@ impl Family for NamesFamily {
         &["C19", "C02", "C04"]
     }
     fn rule(&self) -> &'static str {
-        "79 hostile identifiers (Go keywords that goml allows, predeclared identifiers, runtime helper names, compiler temporaries, generated type/helper names, spellings of the compiler's own type representation, mangling look-alikes such as a__0) x 14 roles (fn, param, local, pattern variable, closure parameter, struct, field, enum, variant, trait, method, type parameter, fn next to temporaries, fn called from a closure) plus 14 collision witnesses for generated names, plus 21 programs declaring two entities of one name in one namespace (functions, types, traits, parameters of functions/methods/impl methods, variants, fields, extern vs fn, methods of one impl) that must be rejected; oracle: emitted Go passes the Go checker and prints exactly what the twin with a benign identifier prints (= the hard-wired expected output). non-trivial = cases whose hostile name survives into the Go text unescaped or mangled; distinct = distinct source text"
+        "81 hostile identifiers (Go keywords that goml allows, predeclared identifiers, runtime helper names, compiler temporaries, generated type/helper names, spellings of the compiler's own type representation, the entry point's names, mangling look-alikes such as a__0) x 17 roles (fn / struct / variant of an imported package, fn, param, local, pattern variable, closure parameter, struct, field, enum, variant, trait, method, type parameter, fn next to temporaries, fn called from a closure) plus 14 collision witnesses for generated names, plus 21 programs declaring two entities of one name in one namespace (functions, types, traits, parameters of functions/methods/impl methods, variants, fields, extern vs fn, methods of one impl) that must be rejected; oracle: emitted Go passes the Go checker and prints exactly what the twin with a benign identifier prints (= the hard-wired expected output). non-trivial = cases whose hostile name survives into the Go text unescaped or mangled; distinct = distinct source text"
     }
     fn cases(&self, _tier: Tier) -> Box<dyn Iterator<Item = Value> + '_> {
         let mut v = Vec::new();
